@@ -2,7 +2,7 @@
 import re
 from collections import defaultdict, deque
 
-NODE_RE = re.compile(r'^(-?\d+) \[label="(.*)"(,style = filled)?\]\s*;?$')
+NODE_RE = re.compile(r'^(-?\d+) \[label="(.*?)"(?:,tooltip="(?:.*?)")?(,style = filled)?\]\s*;?$')
 EDGE_RE = re.compile(r'^(-?\d+) -> (-?\d+) \[label="([^"]*)"')
 
 
